@@ -14,7 +14,21 @@ use std::path::{Path, PathBuf};
 
 pub const GEN_BASES: [u32; 5] = [0, 0x0640, 0xD7FD, 0xFFFA, 0x10FF00];
 
-fn render_line(cp: u32, kind: &str, v: u64, base: u32, model_cp: u32) -> String {
+/// the 23 values of Bidi_Class (UAX #44).  The model has three attribute values; which three real class names stand for
+/// them is an injective renaming that rotates with the behaviour and the base, so that every class name - and every
+/// pair of neighbours in this list - passes through the real generator and must come back as itself.
+pub const BIDI_CLASSES: [&str; 23] = ["L", "R", "AL", "EN", "ES", "ET", "AN", "CS", "NSM", "BN", "B", "S", "WS", "ON", "LRE", "LRO", "RLE", "RLO", "PDF", "PDI", "LRI", "RLI", "FSI"];
+fn bidi_rename(model: &str, window: usize) -> &'static str {
+    let k = match model {
+        "L" => 0,
+        "NSM" => 1,
+        "R" => 2,
+        _ => return "-",
+    };
+    BIDI_CLASSES[(window + k) % 23]
+}
+
+fn render_line(cp: u32, kind: &str, v: u64, base: u32, model_cp: u32, window: usize) -> String {
     let name = match kind {
         "first" => "<Model Block, First>".to_string(),
         "last" => "<Model Block, Last>".to_string(),
@@ -25,7 +39,7 @@ fn render_line(cp: u32, kind: &str, v: u64, base: u32, model_cp: u32) -> String 
         2 => ("Mn", 9, "NSM", String::new()),
         _ => ("So", 0, "R", format!("<wide> {:04X}", base + 32 + model_cp / 2)),
     };
-    format!("{:04X};{};{};{};{};{};;;;N;;;;;", cp, name, gc, ccc, bidi, dec)
+    format!("{:04X};{};{};{};{};{};;;;N;;;;;", cp, name, gc, ccc, bidi_rename(bidi, window), dec)
 }
 
 pub struct Tables {
@@ -269,10 +283,11 @@ pub fn replay_gen(doc: &Value, t: &mut Tally) {
     let dir = scratch();
     for (bi, base) in GEN_BASES.iter().enumerate() {
         FULL.with(|f| f.set(bi == 0));
+        let window = (t.n as usize + bi * 7) % 23;
         let mut text = String::new();
         for l in doc["lines"].as_array().unwrap() {
             let mcp = l["cp"].as_u64().unwrap() as u32;
-            text.push_str(&render_line(base + mcp, l["kind"].as_str().unwrap(), l["v"].as_u64().unwrap(), *base, mcp));
+            text.push_str(&render_line(base + mcp, l["kind"].as_str().unwrap(), l["v"].as_u64().unwrap(), *base, mcp, window));
             text.push('\n');
         }
         let mut f = std::fs::File::create(dir.join("UnicodeData.txt")).unwrap();
@@ -337,8 +352,9 @@ pub fn replay_gen(doc: &Value, t: &mut Tally) {
             if exp_un != "either" && (exp_un == "yes") != un {
                 diffs.push(json!({"cp": mcp, "table": "unassigned", "actual": un}));
             }
-            if json!(bidi) != *expected_at(&doc["bidi"], mcp) {
-                diffs.push(json!({"cp": mcp, "table": "bidi", "actual": bidi}));
+            let exp_bidi = bidi_rename(expected_at(&doc["bidi"], mcp).as_str().unwrap_or("?"), window);
+            if bidi != exp_bidi {
+                diffs.push(json!({"cp": mcp, "table": "bidi", "expected": exp_bidi, "actual": bidi}));
             }
             let exp_wm = expected_at(&doc["wm"], mcp).as_i64().unwrap_or(-2);
             if wm != exp_wm {
@@ -372,7 +388,7 @@ pub fn replay_generr(doc: &Value, t: &mut Tally) {
         let mut text = String::new();
         for l in doc["lines"].as_array().unwrap() {
             let mcp = l["cp"].as_u64().unwrap() as u32;
-            text.push_str(&render_line(base + mcp, l["kind"].as_str().unwrap(), l["v"].as_u64().unwrap(), base, mcp));
+            text.push_str(&render_line(base + mcp, l["kind"].as_str().unwrap(), l["v"].as_u64().unwrap(), base, mcp, 0));
             text.push('\n');
         }
         let mut f = std::fs::File::create(dir.join("UnicodeData.txt")).unwrap();
